@@ -79,6 +79,90 @@ theorem c09_tick_true_iff_active_after (cfg : Cfg) (s : State) (c : Nat) :
   obtain ⟨ph, len, errs, ops, ren, rsn, st0, la, now⟩ := s
   cases ph <;> simp [step, tick, started, enterSenescence] <;> (repeat' split) <;> simp_all
 
+/-! ## The whole alphabet: what holds across `reset`
+
+`reset` is an operation of the property's alphabet.  It is the one operation that leaves TERMINATED (and every other
+phase) for NASCENT, and it announces nothing: `c09_reset_leaves_terminated_witness`.  What holds instead, for EVERY
+history with no exception: the history splits at its last `reset` (`splitEpoch`) into a prefix and a reset-free last
+epoch; the last epoch starts NASCENT and behaves exactly — states, return values, callbacks — like a lifecycle
+constructed at the moment of that reset (`c09_reset_starts_fresh_lifecycle`), so every clause applies to it as if
+from `init`; TERMINATED is left by `reset` only. -/
+
+/-- `terminate(); reset()` yields NASCENT and no callback reports a change out of TERMINATED: TERMINATED is absorbing
+    only up to `reset` (the reading of the property: `reset` starts a new lifecycle on the same object). -/
+theorem c09_reset_leaves_terminated_witness :
+    (run ⟨3, 2, true, none, none⟩ (init ⟨3, 2, true, none, none⟩) [.start, .term]).phase = .terminated ∧
+    (run ⟨3, 2, true, none, none⟩ (init ⟨3, 2, true, none, none⟩) [.start, .term, .reset]).phase = .nascent ∧
+    historyEvs ⟨3, 2, true, none, none⟩ (init ⟨3, 2, true, none, none⟩) [.start, .term, .reset]
+      = [.change .nascent .active, .change .active .terminated] := by decide
+
+/-- TERMINATED is left by `reset` and by nothing else: a call that finds the lifecycle TERMINATED and leaves it in
+    another phase is `reset`, it leaves it NASCENT and announces nothing. -/
+theorem c09_terminated_left_only_by_reset (cfg : Cfg) (s : State) (op : Op) (h : s.phase = .terminated)
+    (hl : (step cfg s op).st.phase ≠ .terminated) :
+    op = .reset ∧ (step cfg s op).st.phase = .nascent ∧ (step cfg s op).evs = [] := by
+  have : op = .reset := Classical.byContradiction fun hr => hl (terminated_step cfg s op h hr)
+  subst this
+  simp [step, reset]
+
+/-- A reset starts a fresh lifecycle.  For every history `pre` and every continuation `post` (resets allowed in
+    both): the lifecycle after `pre, reset, post` is — in every field except the renewal counter, which keeps
+    counting — the lifecycle constructed at the moment of the reset and taken through `post`; and the callbacks
+    emitted after the reset are exactly those of that fresh lifecycle.  Hence every history theorem above
+    (`c09_length_in_bounds`, `c09_hayflick`, `c09_time_limits_force_senescence`, `c09_terminated_absorbing`, …), which
+    speak about `run cfg (init cfg) …`, applies verbatim to what follows a reset. -/
+theorem c09_reset_starts_fresh_lifecycle (cfg : Cfg) (pre post : List Op) :
+    run cfg (init cfg) (pre ++ .reset :: post)
+      = addRenewals (run cfg (init cfg) pre).renewals (run cfg (init cfg) (.adv (run cfg (init cfg) pre).now :: post)) ∧
+    historyEvs cfg (init cfg) (pre ++ .reset :: post)
+      = historyEvs cfg (init cfg) pre ++ historyEvs cfg (init cfg) (.adv (run cfg (init cfg) pre).now :: post) := by
+  have hr := reset_state cfg (run cfg (init cfg) pre)
+  constructor
+  · rw [run_append]
+    simp only [run]
+    rw [hr.1]
+    exact (run_addRenewals cfg _ post _).1
+  · rw [historyEvs_append]
+    simp only [historyEvs, hr.2, List.nil_append]
+    rw [hr.1, (run_addRenewals cfg _ post _).2]
+    simp [step, run]
+
+/-- Legal transitions only, over ANY history (no hypothesis): split the history at its last `reset`; the last epoch
+    starts NASCENT, contains no `reset`, and the callbacks announced during it chain from NASCENT to the final
+    phase — each of them legal by `c09_legal_transitions`.  (History without `reset`: the prefix is empty and this is
+    `c09_phase_history_is_announced` from `init`.) -/
+theorem c09_phase_history_is_announced_across_resets (cfg : Cfg) (ops : List Op) :
+    (splitEpoch ops).1 ++ (splitEpoch ops).2 = ops ∧
+    (∀ op ∈ (splitEpoch ops).2, op ≠ .reset) ∧
+    ((splitEpoch ops).1 = [] ∨ ∃ pre, (splitEpoch ops).1 = pre ++ [.reset]) ∧
+    (run cfg (init cfg) (splitEpoch ops).1).phase = .nascent ∧
+    follow .nascent (historyEvs cfg (run cfg (init cfg) (splitEpoch ops).1) (splitEpoch ops).2)
+      = some (run cfg (init cfg) ops).phase := by
+  have hnas : (run cfg (init cfg) (splitEpoch ops).1).phase = .nascent := by
+    rcases splitEpoch_ends_with_reset ops with h | ⟨pre, h⟩
+    · rw [h]; rfl
+    · rw [h, run_append]; simp [run, step, reset]
+  refine ⟨splitEpoch_append ops, splitEpoch_no_reset ops, splitEpoch_ends_with_reset ops, hnas, ?_⟩
+  have h := c09_phase_history_is_announced cfg (run cfg (init cfg) (splitEpoch ops).1) (splitEpoch ops).2
+    (splitEpoch_no_reset ops)
+  rw [hnas, ← run_append, splitEpoch_append] at h
+  exact h
+
+/-- TERMINATED is absorbing, over ANY history: once the lifecycle is TERMINATED at some point of the last epoch (the
+    part after the last `reset`), it is TERMINATED at the end of the history. -/
+theorem c09_terminated_absorbing_in_last_epoch (cfg : Cfg) (ops a b : List Op) (hab : (splitEpoch ops).2 = a ++ b)
+    (ht : (run cfg (init cfg) ((splitEpoch ops).1 ++ a)).phase = .terminated) :
+    (run cfg (init cfg) ops).phase = .terminated := by
+  have hb : ∀ op ∈ b, op ≠ .reset := fun op h => splitEpoch_no_reset ops op (by rw [hab]; simp [h])
+  have := c09_terminated_absorbing cfg _ ht b hb
+  rwa [← run_append, List.append_assoc, ← hab, splitEpoch_append] at this
+
+/-- a history with two resets: the split is at the last one, and the lifecycle terminated after it stays terminated -/
+example : splitEpoch [.start, .term, .reset, .tick 1, .reset, .start, .term, .tick 1, .renew none true]
+      = ([.start, .term, .reset, .tick 1, .reset], [.start, .term, .tick 1, .renew none true]) ∧
+    (run ⟨3, 2, true, none, none⟩ (init ⟨3, 2, true, none, none⟩)
+      [.start, .term, .reset, .tick 1, .reset, .start, .term, .tick 1, .renew none true]).phase = .terminated := by decide
+
 /-! ## Bounds -/
 
 /-- The remaining length stays within `[0, max_operations]` after every history. -/
@@ -186,6 +270,20 @@ theorem c09_time_limits_force_senescence (cfg : Cfg) (ops : List Op)
     (repeat' split) <;> simp_all
   · intro h1 h2
     simp [step, checkTimeouts, h1, h2]
+
+/-- The limits are edge-triggered: they force senescence AT the call that tests them (`record_error` for the error
+    limits, `check_timeouts` for the time limits, `tick` for depletion), not in between.  An ACTIVE lifecycle above its
+    error threshold exists (errors recorded while NASCENT do not senesce it; the next `record_error` does), and a
+    lifecycle past its lifetime keeps ticking True until `check_timeouts` is called. -/
+theorem c09_limits_are_edge_triggered_witness :
+    (run ⟨5, 2, true, none, none⟩ (init ⟨5, 2, true, none, none⟩) [.err, .err, .err, .tick 1]).phase = .active ∧
+    (run ⟨5, 2, true, none, none⟩ (init ⟨5, 2, true, none, none⟩) [.err, .err, .err, .tick 1]).errors = 3 ∧
+    (run ⟨5, 2, true, none, none⟩ (init ⟨5, 2, true, none, none⟩) [.err, .err, .err, .tick 1, .err]).phase = .senescent ∧
+    (step ⟨5, 2, true, some 900000000, none⟩
+      (run ⟨5, 2, true, some 900000000, none⟩ (init ⟨5, 2, true, some 900000000, none⟩) [.start, .adv 1800000000])
+      (.tick 1)).ret = .bool true ∧
+    (run ⟨5, 2, true, some 900000000, none⟩ (init ⟨5, 2, true, some 900000000, none⟩)
+      [.start, .adv 1800000000, .tick 1, .timeouts]).phase = .senescent := by decide
 
 /-- The thresholds used by the model were recognised in the source by extractor E5 (numeric class attributes). -/
 theorem c09_thresholds_known : Gen.TelomereConsts.known = true ∧ 0 < Gen.TelomereConsts.senescenceDen ∧
@@ -368,7 +466,10 @@ example :
 `harness/vf/extract/py2lean_telomere.py` on every run (fail closed: a construct outside the supported subset yields
 `untranslatable …`, which no proof below survives).  Each theorem: for every configuration, every state and every
 list of callbacks already emitted, the translated Python method computes exactly the state, the callback stream and
-the return value of `step` for that operation.  Hence every theorem above is a theorem about the translated source.
+the return value of `step` for that operation.  Hence every theorem above about the nine mutators is a theorem about
+the translated source.  The read-only accessors (`get_status`, `get_statistics`, `get_age`, `is_active`,
+`is_operational`) are NOT translated: `isActive`/`isOperational`/`timeRemaining`/`opsRemaining` are hand-written and
+tied to the code by the differential correspondence only (their lock shape is extracted by E3).
 All translated definitions (the nine methods and whatever helpers they call, under whatever name) are `@[simp]`; the
 proofs name none of them except the method in the statement, and normalise both sides to decision trees over the same
 atoms (`cases` on the phase / the optionals, `simp`, `split`, `omega`), so behaviour-preserving refactorings inside the
